@@ -461,6 +461,10 @@ func (fr *Frame) loopHead(li *loopInfo, phis []*ssa.Phi) {
 	li.headSt = fr.st.clone()
 	for _, ph := range phis {
 		fr.seedVal(fr.vals[ph])
+		// range-over-slice index: starts at -1 and is only incremented (SSA shape checked)
+		if ph.Comment == "rangeindex" && isRangeIndexPhi(ph) {
+			fr.assume(app("<=", "(- 1)", fr.vals[ph].t))
+		}
 	}
 	// 3. assume invariants
 	for i, inv := range li.lc.Invariants {
@@ -543,6 +547,28 @@ func (fr *Frame) loopLatch(li *loopInfo, from *ssa.BasicBlock) {
 	for ph, v := range saved {
 		fr.vals[ph] = v
 	}
+}
+
+// isRangeIndexPhi: phi [entry: -1, latch: phi + 1].
+func isRangeIndexPhi(ph *ssa.Phi) bool {
+	okInit, okStep := false, false
+	for _, e := range ph.Edges {
+		switch x := e.(type) {
+		case *ssa.Const:
+			if bi, ok := constBig(x); ok && bi.Int64() == -1 {
+				okInit = true
+			}
+		case *ssa.BinOp:
+			if x.Op == token.ADD && x.X == ssa.Value(ph) {
+				if c, ok := x.Y.(*ssa.Const); ok {
+					if bi, ok := constBig(c); ok && bi.Int64() == 1 {
+						okStep = true
+					}
+				}
+			}
+		}
+	}
+	return okInit && okStep && len(ph.Edges) == 2
 }
 
 // loopFrameFormula: objects that existed at loop entry and are not designated
